@@ -721,6 +721,8 @@ MessageReceivedFromGateway(const MessageRef & msgRef, void * userData)
                }
                else if ((fn == PR_NAME_KEYS)||(fn == PR_NAME_FILTERS))
                {
+                  (void) msg.CopyName(fn, _parameters);  // must be done here, because after the MoveName() call below the field is no longer in (msg), and (fn) no longer refers to its name
+                  copyField = false;
                   (void) msg.MoveName(fn, _defaultMessageRouteMessage);
                   updateDefaultMessageRoute = true;
                }
